@@ -172,6 +172,11 @@ Fixpoint dec_loop (fuel : nat) (c : rcfg) (ms : list rmodel) (snaps : list snap)
           end
         else opt_app [ERR_STATE] (dec_loop fuel' c ms snaps r d tr ok)
     | 23 :: r => opt_app (dec_raw d) (dec_loop fuel' c ms snaps r d tr ok)
+    | 28 :: r =>               (* the decoder taken apart and reassembled from its own raw parts *)
+        match rdec_from_raw_parts c (d_buf d) (d_rest d) (d_lower d) (d_range d) (d_point d) with
+        | Some d' => opt_app [0] (dec_loop fuel' c ms snaps r d' tr ok)
+        | None => opt_app [ERR_RAW] (dec_loop fuel' c ms snaps r d tr ok)
+        end
     | 24 :: pos :: lo :: ra :: r =>
         if rstate_ok c (zN ra) then
           match rdec_seek c (zN pos) (zN lo) (zN ra) d with
